@@ -59,9 +59,15 @@ class Spec:
         self.proto = proto            # constructor is random: fresh elements are copies of one never-used prototype
         self._proto = None
         self.exclusive_post = exclusive_post   # a post setter is overwritten by the constructor-argument setters
+        self.attr_only = set()        # plain public attributes the registered build does not pass to the constructor
+        self.nreg = {n: len(v) for n, v in values.items()}     # values beyond nreg[n] are kind-lifted variants
+        self.ok = None                # name -> indices a fresh element accepts (probed once per run)
 
-    def make(self, params):
-        vals = {n: self.values[n][i] for n, i in params.items() if n not in self.post}
+    def make(self, params, over=None):
+        """`over`: name -> object handed over instead of the registered value (a caller-owned mutable object)."""
+        over = over or {}
+        vals = {n: (over[n] if n in over else self.values[n][i]) for n, i in params.items()
+                if n not in self.post and n not in self.attr_only}
         if self.proto:
             # (copy.deepcopy of an agnostic element fails: __getattr__ answers '__deepcopy__')
             if self._proto is None:
@@ -72,6 +78,12 @@ class Spec:
         else:
             el = self.build(vals)
         for n in self.post:
+            if n in over:
+                setattr(el, n, over[n])
+            elif params.get(n, 0) != 0:
+                setattr(el, n, self.values[n][params[n]])
+        for n in self.attr_only:
+            # a public attribute that is not a constructor argument of the registered build: assigned before first use
             if params.get(n, 0) != 0:
                 setattr(el, n, self.values[n][params[n]])
         return el
@@ -85,6 +97,91 @@ def public_setters(el):
                 if getattr(type(el), n).fset is not None:
                     names.append(n)
     return names
+
+
+def plain_parameters(el):
+    """Constructor arguments kept as plain public attributes (no property): changing one is `el.name = v` followed by the
+    documented `clear_cache()` ("should be called if agnostic data ... was changed by the user")."""
+    import inspect
+    try:
+        ps = [q for q in inspect.signature(type(el).__init__).parameters if q != 'self']
+    except (TypeError, ValueError):
+        return []
+    return [q for q in ps if q in vars(el) and not q.startswith('_') and not isinstance(getattr(type(el), q, None), property)]
+
+
+def value_kind(v):
+    """The kind of a parameter value as `evaluate_parameter` and the elements' own `callable()` / `isinstance` tests see it."""
+    import inspect
+    if isinstance(v, str):
+        return 'unset'
+    if v is None:
+        return 'none'
+    if callable(v):
+        try:
+            return 'callable(%s)' % ','.join(inspect.signature(v).parameters)
+        except (TypeError, ValueError):
+            return 'callable(?)'
+    if isinstance(v, (list, tuple)) or (isinstance(v, np.ndarray) and v.ndim > 0):
+        return 'array'
+    return 'scalar'
+
+
+def lift_values(spec):
+    """For every parameter with a scalar value: the same parameter as a callable of the wavelength, of the grid and of both
+    (kinds the registry lacks are appended after the registered values; a probe decides per run which ones the element accepts)."""
+    import hcipy as hp
+    for n, vals in spec.values.items():
+        if n in spec.skip:
+            continue
+        kinds = set(value_kind(v) for v in vals)
+        base = [v for v in vals if value_kind(v) == 'scalar' and not isinstance(v, (bool, np.bool_))]
+        if not base:
+            continue
+        c = base[0]
+        for f, k in zip(_lifts(hp, c), ('callable(wavelength)', 'callable(grid)', 'callable(grid,wavelength)')):
+            if k not in kinds:
+                vals.append(f)
+
+
+def _lifts(hp, c):
+    def w_lift(wavelength):
+        return c * np.float64(0.75 + 0.25 * wavelength)
+
+    def g_lift(grid):
+        return hp.Field(c * (1 + 0.125 * grid.x), grid)
+
+    def gw_lift(grid, wavelength):
+        return hp.Field(c * (1 + 0.125 * grid.x / wavelength), grid)
+    return w_lift, g_lift, gw_lift
+
+
+def materialise(spec, n, idx, grid):
+    """Value `idx` of parameter `n` as a caller-owned *mutable* object (0-d array for a scalar, a copy of an array, the Field a
+    callable of the grid gives on `grid`), or None.  Returns (object, needs_grid)."""
+    v = spec.values[n][idx]
+    k = value_kind(v)
+    if k == 'scalar' and not isinstance(v, (bool, np.bool_)):
+        return np.array(v), False
+    if k == 'array':
+        return np.array(v, copy=True), False
+    if k == 'callable(grid)':
+        r = v(grid)
+        return (r.copy(), True) if isinstance(r, np.ndarray) and r.ndim > 0 else (None, False)
+    return None, False
+
+
+def edit_in_place(obj, new):
+    """The caller overwrites his object; False if the new content does not fit (other shape / would lose a complex part)."""
+    new = np.asarray(new)
+    if obj.shape != new.shape or not np.can_cast(new.dtype, obj.dtype, casting='safe'):
+        return False
+    obj[...] = new
+    return True
+
+
+def live_copy(obj):
+    return obj.copy()
 
 
 _SPECS = None
@@ -194,7 +291,7 @@ def specs():
                   {'magnification': [2.0, 0.5, w_mag, np.array([2.0, 0.5])]}, PN, PN, grid_dep=False,
                   pol=(0, 1, 2), dtypes=cplx))
     S.append(Spec('JonesMatrixOpticalElement', lambda v: hp.JonesMatrixOpticalElement(v['jones_matrix']),
-                  {'jones_matrix': [g_jones]}, PN, PN, pol=(0, 1, 2), dtypes=cplx))
+                  {'jones_matrix': [g_jones, '__J0__', '__w_jones__', '__gw_jones__']}, PN, PN, pol=(0, 1, 2), dtypes=cplx))
     S.append(Spec('JonesMatrixOpticalElement-const', lambda v: hp.JonesMatrixOpticalElement(v['jones_matrix']),
                   {'jones_matrix': [J0]}, PN, PN, pol=(0, 1, 2)))
     ret_skip = {'jones_matrix': 'setter is a deliberate no-op (derived quantity)'}
@@ -223,12 +320,14 @@ def specs():
                   post=('circularity', 'phase_retardation', 'fast_axis_orientation'), skip=ret_skip))
     S.append(Spec('LinearPolarizer', lambda v: hp.LinearPolarizer(v['polarization_angle']),
                   {'polarization_angle': [0.5, w_ret, 1.25]}, PN, PN, pol=(0, 1, 2), skip=ret_skip))
-    S.append(Spec('StepIndexFiber', lambda v: hp.StepIndexFiber(v['core_radius'], v['NA'], 1.0, v['position']),
-                  {'core_radius': [0.5, 0.75], 'NA': [0.5, 0.75], 'position': [[0.0, 0.0], [0.125, -0.0625]]},
+    S.append(Spec('StepIndexFiber', lambda v: hp.StepIndexFiber(v['core_radius'], v['NA'], v['fiber_length'], v['position']),
+                  {'core_radius': [0.5, 0.75], 'NA': [0.5, 0.75], 'position': [[0.0, 0.0], [0.125, -0.0625]],
+                   'fiber_length': [1.0, 2.0, 0.5]},
                   P, P, grid_dep=None, skip={'numerical_aperture': 'alias of NA (same property object)'}))
     S.append(Spec('VectorVortexCoronagraph',
-                  lambda v: hp.VectorVortexCoronagraph(2, None, v['phase_retardation'], q=8, scaling_factor=4, window_size=8),
-                  {'phase_retardation': [np.pi]}, [P[0], P[1], P[3], P[4]], [P[0], P[1], P[3], P[4]], pol=(0, 1, 2), dtypes=cplx))
+                  lambda v: hp.VectorVortexCoronagraph(v['charge'], None, v['phase_retardation'], q=8, scaling_factor=4, window_size=8),
+                  {'phase_retardation': [np.pi, '__w_ret2__', 2.0], 'charge': [2, 4]},
+                  [P[0], P[1], P[3], P[4]], [P[0], P[1], P[3], P[4]], pol=(0, 1, 2), dtypes=cplx))
     # parameters that have no public setter, given as callables of the wavelength / of grid and wavelength at construction
     def w_ret2(wavelength):
         return np.pi * 0.75 / wavelength
@@ -246,7 +345,11 @@ def specs():
                   {'jones_matrix': [gw_jones]}, PN, PN, pol=(0, 1, 2), dtypes=cplx))
     S.append(Spec('JonesMatrixOpticalElement-chromatic-const', lambda v: hp.JonesMatrixOpticalElement(v['jones_matrix']),
                   {'jones_matrix': [w_jones]}, PN, PN, pol=(0, 1, 2)))
+    late = {'__J0__': J0, '__w_jones__': w_jones, '__gw_jones__': gw_jones, '__w_ret2__': w_ret2}
     for sp in S:
+        for n in sp.values:
+            sp.values[n] = [late.get(v, v) if isinstance(v, str) else v for v in sp.values[n]]
+        lift_values(sp)
         if sp.name.split('-')[0] in ANY_GRID:
             sp.any_grid = True
         if [id(g) for g in sp.fwd] != [id(g) for g in sp.bwd]:
@@ -482,8 +585,19 @@ class Hist:
         self.grid_dep = bool(spec.grid_dep) if spec.grid_dep is not None else True
         self.wl_dep = bool(spec.wl_dep)
         self.maxN = int(case['maxN']) if case.get('maxN') else 11
+        self.live = {}           # parameter name -> the caller-owned mutable object the shared element was given
+        for n, idx in case.get('init', []):
+            # the shared element is *constructed* with another registered value (what __init__ decides once must not outlive a setter)
+            self.params[n] = int(idx)
+        for n, idx in case.get('live0', []):
+            # the element is *constructed* with a caller-owned mutable object
+            obj, _ = materialise(spec, n, int(idx), self.pool[0])
+            if obj is None or n in spec.post:
+                raise MachineryError('live0: value %s of %s.%s cannot be handed over as a mutable object' % (idx, spec.name, n))
+            self.live[n] = obj
+            self.params[n] = int(idx)
         try:
-            self.elem = spec.make(self.params)
+            self.elem = spec.make(self.params, self.live)
         except Exception as e:
             self.bad.append(('raises %s %s' % (type(e).__name__, spec.name.split('-')[0]),
                              'constructing the element raised %r' % (e,), 0))
@@ -522,10 +636,29 @@ class Hist:
         self.nsets = 0
         self.lines = ['C05 new %d %d %d' % (self.grid_dep, self.wl_dep, self.maxN)]
         self.expect = [None]     # per line: None or dict of real observations
+        # histories of the setter classes go through the model's parameter-value layer (`pstep`): what each instance handed out
+        # was built from (object identity, content, kind of the value at the version the real instance first appeared)
+        self.pmode = case.get('style') in ('setter-kind', 'setter-same-object', 'attribute-kind', 'each-attribute', 'each-setter')
+        self.pobj = {}           # id of a value object -> small number
+        self.pvals = []          # one value per parameter version
+        if self.pmode:
+            n0 = case['ops'] and next((op[1] for op in case['ops'] if op[0] in ('set', 'setm', 'setsame', 'attr')), None)
+            self.pname = n0
+            v0 = self.live[n0] if n0 in self.live else (spec.values[n0][self.params[n0]] if n0 else None)
+            self.pvals.append(self.pval(v0, self.params.get(n0, 0)))
+            self.lines.append('C05 pnew %d %d %d' % self.pvals[0])
+            self.expect.append(None)
         self.counts = {}
         self.pending_setter = None
+        self.pending_how = 'set'
         self.cell_prev = {}      # instance index -> the transfer-function object its FourierFilter held after its last use
         self.fourier_seen = {}   # id of an owned Fourier object -> [type name, precisions it was used with, the object]
+
+    def pval(self, obj, idx):
+        kinds = {'callable(grid)': 1, 'callable(wavelength)': 2, 'callable(grid,wavelength)': 3}
+        name = self.pname
+        kind = kinds.get(value_kind(self.spec.values[name][idx]) if name else 'scalar', 0)
+        return (self.pobj.setdefault(id(obj), len(self.pobj)), int(idx), kind)
 
     def count(self, k):
         self.counts[k] = self.counts.get(k, 0) + 1
@@ -682,6 +815,14 @@ class Hist:
                     self.count('reqc:rebuilt=' + obs['rebuilt'])
                 except Exception as e:
                     self.state_issue('cannot read the memo cell of the instance handed out: %r' % (e,))
+        if self.pmode and line.startswith('C05 req '):
+            line = 'C05 preq' + line[len('C05 req'):]
+            if 'ver' in obs:
+                ver = int(obs['ver'])
+                obs['built'] = '%d.%d.%d' % self.pvals[ver] if ver < len(self.pvals) else 'unknown-version-%d' % ver
+            obs.pop('id', None)
+            obs.pop('ver', None)
+            self.count('preq')
         self.lines.append(line)
         self.expect.append(obs)
 
@@ -692,9 +833,13 @@ class Hist:
     def fail(self, clause, what, step):
         name = self.spec.name.split('-')[0]
         if self.pending_setter is not None and clause in ('result-differs', 'exception-mismatch', 'instance-differs'):
-            key = 'setter-no-effect %s.%s' % (name, self.pending_setter)
-            what = 'after setting %s.%s the next propagation differs from a fresh element built with the new value: %s' % (
-                name, self.pending_setter, what)
+            how = self.pending_how
+            key = '%s %s.%s' % ({'set': 'setter-no-effect', 'same': 'setter-same-object-no-effect',
+                                 'attr': 'reassigned-parameter-no-effect'}[how], name, self.pending_setter)
+            what = 'after %s %s.%s%s the next propagation differs from a fresh element built with the new value: %s' % (
+                {'set': 'setting', 'same': 'editing the stored object in place and handing the same object to the setter of',
+                 'attr': 'assigning the public attribute'}[how], name, self.pending_setter,
+                ' and clear_cache()' if how == 'attr' else '', what)
         elif clause in ('result-differs', 'exception-mismatch', 'instance-differs'):
             two = any(op[0] == 'both' for op in self.case['ops'][:step + 1])
             key = 'history-dependent%s %s' % ('-after-two-grid-request' if two else '', name)
@@ -747,23 +892,52 @@ class Hist:
                     return
                 self.count('mut:' + how + ('-via-wavefront' if via else ''))
                 continue
-            if kind == 'set':
+            if kind in ('set', 'setm', 'setsame', 'attr'):
                 name, idx = op[1], int(op[2])
                 self.params[name] = idx
+                value = spec.values[name][idx]
+                if kind == 'set' or kind == 'attr':
+                    self.live.pop(name, None)
+                elif kind == 'setm':
+                    # a caller-owned mutable object with this value (new object)
+                    value, _ = materialise(spec, name, idx, self.pool[0])
+                    if value is None:
+                        raise MachineryError('setm: value %s of %s.%s has no mutable form' % (idx, spec.name, name))
+                    self.live[name] = value
+                else:
+                    # the caller edits the object he handed over earlier in place and assigns the *same object* again
+                    if name not in self.live:
+                        raise MachineryError('setsame %s.%s without an earlier setm / live0' % (spec.name, name))
+                    new, _ = materialise(spec, name, idx, self.pool[0])
+                    if new is None or not edit_in_place(self.live[name], new):
+                        raise MachineryError('setsame: value %s of %s.%s does not fit the live object' % (idx, spec.name, name))
+                    value = self.live[name]
                 try:
-                    setattr(self.elem, name, spec.values[name][idx])
+                    setattr(self.elem, name, value)
+                    if kind == 'attr':
+                        self.elem.clear_cache()
                 except Exception as e:
                     self.fail('setter-raises', 'setting %s raised %s: %s' % (name, type(e).__name__, e), step)
                     self.bad[-1] = ('setter-raises %s.%s' % (spec.name.split('-')[0], name),) + self.bad[-1][1:]
                     return
                 self.nsets += 1
                 self.pending_setter = name
-                self.count('setter:%s.%s' % (spec.name, name))
-                self.lines.append('C05 set')
+                self.pending_how = {'set': 'set', 'setm': 'set', 'setsame': 'same', 'attr': 'attr'}[kind]
+                self.count('%s:%s.%s' % ({'set': 'setter', 'setm': 'setter-mutable-object', 'setsame': 'setter-same-object',
+                                         'attr': 'attribute+clear_cache'}[kind], spec.name, name))
+                if kind != 'setsame':
+                    self.count('value-kind:%s' % value_kind(spec.values[name][idx]))
+                if self.pmode and name == self.pname:
+                    self.pvals.append(self.pval(value, idx))
+                    self.lines.append('C05 pset %d %d %d' % self.pvals[-1])
+                else:
+                    self.pmode = False
+                    self.lines.append('C05 set')
                 self.expect.append(dict(status='ok', **self.real_state()))
                 continue
             try:
-                fresh = spec.make(self.params)
+                # (caller-owned objects: the fresh element gets a copy of their current content)
+                fresh = spec.make(self.params, {n: live_copy(o) for n, o in self.live.items()})
             except Exception as e:
                 self.raises(e, 'constructing a fresh element with the current parameter values', step)
                 return
@@ -877,6 +1051,99 @@ def parse_model(resp):
 # ---------------------------------------------------------------------------------------------
 # generation
 
+def probe_values(spec, names):
+    """Which of the values of each changeable parameter (registered and kind-lifted) does a *fresh* element accept?  A value is
+    accepted if an element constructed with it propagates forward and backward at two wavelengths without raising and gives
+    finite numbers.  Registered values are accepted as they are (a failure there is for the histories to report)."""
+    ok = {}
+    mut = {}
+    g0 = spec.fwd[0]
+    for n in names:
+        ok[n] = [i for i in range(spec.nreg[n]) if not (i == 0 and n in spec.post)]
+        mut[n] = {}
+        base = {q: 0 for q in spec.values}
+
+        def works(idx, over=None):
+            try:
+                par = dict(base)
+                par[n] = idx
+                el = spec.make(par, over)
+                for w in (WLS[0], WLS[2]):
+                    for d in ('forward', 'backward'):
+                        r = getattr(el, d)(make_wavefront(g0, w, 'complex128', 0, 3))
+                        if not np.all(np.isfinite(r.electric_field)):
+                            return False
+                return True
+            except Exception:
+                return False
+        for i in range(spec.nreg[n], len(spec.values[n])):
+            if works(i):
+                ok[n].append(i)
+        for i in ok[n]:
+            try:
+                obj, needs_grid = materialise(spec, n, i, g0)
+            except Exception:
+                obj = None
+            if obj is not None and works(i, {n: obj}):
+                mut[n][i] = (obj.shape, obj.dtype, needs_grid)
+    spec.ok = ok
+    spec.mutable = mut
+
+
+def same_object_pairs(spec, n, free_only=False):
+    """(a, b): value b can be written in place into the mutable object that holds value a."""
+    m = spec.mutable.get(n, {})
+    return [(a, b) for a in m for b in m if a != b and m[a][0] == m[b][0] and np.can_cast(m[b][1], m[a][1], casting='safe')
+            and not (free_only and (m[a][2] or m[b][2]))]
+
+
+def setter_cases(ctx, spec, names, op):
+    """Directed histories of the two setter classes, for every parameter in `names` (public setters: op 'set'; plain public
+    attributes followed by clear_cache(): op 'attr')."""
+    out = []
+    f = lambda g, w, sd, dt='complex128': ['fwd', g, w, dt, 0, sd]      # noqa: E731
+    b = lambda g, w, sd, dt='complex128': ['bwd', g, w, dt, 0, sd]      # noqa: E731
+    for n in names:
+        # (1) the setter changes the *kind* of the value: one representative per ordered pair of kinds; three wavelengths
+        # (none of them special) and two grids before and after, both directions
+        rep = {}
+        for i in spec.ok[n]:
+            rep.setdefault(value_kind(spec.values[n][i]), i)
+        pairs = [(a, c) for a in rep.values() for c in rep.values() if a != c]
+        first = [pr for pr in pairs if 0 in pr]
+        rest = [pr for pr in pairs if 0 not in pr]
+        if ctx.tier != 'thorough' and len(rest) > 2:
+            rest = [rest[int(j)] for j in ctx.rng.choice(len(rest), size=2, replace=False)]
+        for a, c in first + rest:
+            by_init = a != 0 and n not in spec.post and n not in spec.attr_only
+            pre = [[op, n, a]] if (a != 0 and not by_init) else []
+            ops = pre + [f(0, 2, 41), f(0, 3, 42), b(0, 4, 43), f(1, 2, 44), [op, n, c],
+                         f(0, 3, 45), f(0, 2, 46), b(0, 4, 47), f(1, 2, 48), b(1, 3, 49), f(0, 0, 50)]
+            out.append({'spec': spec.name, 'maxN': [None, 2][(a + c) % 2], 'style': 'setter-kind' if op == 'set' else 'attribute-kind',
+                        'init': [[n, a]] if by_init else [], 'ops': ops})
+            ctx.count('kind-at-construction:%s' % value_kind(spec.values[n][a]))
+            ctx.count('kind-change:%s->%s' % (value_kind(spec.values[n][a]), value_kind(spec.values[n][c])))
+        if op != 'set':
+            # plain attributes: also every value once right after use (the each-setter histories cover setters only)
+            for c in spec.ok[n][1:]:
+                out.append({'spec': spec.name, 'maxN': None, 'style': 'each-attribute',
+                            'ops': [f(0, 0, 5), b(0, 0, 6), [op, n, c], f(0, 0, 5), b(0, 0, 6), [op, n, 0], f(0, 0, 5)]})
+            continue
+        # (2) the caller edits the object he gave to the element in place and hands the same object to the setter again
+        prs = same_object_pairs(spec, n)
+        if ctx.tier != 'thorough' and len(prs) > 3:
+            prs = prs[:2] + [prs[int(ctx.rng.integers(2, len(prs)))]]
+        for a, c in prs:
+            tail = [f(0, 2, 51), b(0, 2, 52), f(0, 0, 53, spec.dtypes[-1]), ['setsame', n, c], f(0, 2, 51), b(0, 2, 52), f(0, 0, 53),
+                    ['setsame', n, a], b(0, 2, 54), f(0, 2, 55)]
+            out.append({'spec': spec.name, 'maxN': None, 'style': 'setter-same-object', 'ops': [['setm', n, a]] + tail})
+            if n not in spec.post:
+                # ... the element was constructed with that object
+                out.append({'spec': spec.name, 'maxN': None, 'style': 'setter-same-object', 'live0': [[n, a]], 'ops': tail})
+            ctx.count('same-object:%s' % ('field' if spec.mutable[n][a][2] else 'array%s' % (spec.mutable[n][a][0],)))
+    return out
+
+
 def gen_case(rng, spec, el_setters, big):
     nf = int(rng.integers(2, min(len(spec.fwd), 6) + 1))
     fsel = [int(x) for x in rng.choice(len(spec.fwd), size=nf, replace=False)]
@@ -892,6 +1159,7 @@ def gen_case(rng, spec, el_setters, big):
     n = int(rng.integers(8, 28 if not big else 60))
     ops = []
     post_used = False
+    live = {}
     near = []
     if style in ('near', 'mutate'):
         # a family of grids nearly equal (or, eps = 0, equal) to one base grid, used through the same element
@@ -935,7 +1203,20 @@ def gen_case(rng, spec, el_setters, big):
             pool = [x for x in el_setters if x in spec.post] if (post_used and spec.exclusive_post) else el_setters
             name = str(rng.choice(pool))
             post_used = post_used or name in spec.post
-            ops.append(['set', name, int(rng.integers(1 if name in spec.post else 0, len(spec.values[name])))])
+            cand = [i for i in (spec.ok[name] if spec.ok else range(len(spec.values[name]))) if not (i == 0 and name in spec.post)]
+            idx = int(rng.choice(cand))
+            free = [pr for pr in same_object_pairs(spec, name, free_only=True)] if spec.ok else []
+            if name in live and rng.random() < 0.6:
+                # the caller edits the object he handed over in place and gives the same object to the setter again
+                idx = int(rng.choice([pr[1] for pr in free if pr[0] == live[name]] + [live[name]]))
+                ops.append(['setsame', name, idx])
+            elif free and rng.random() < 0.3:
+                idx = int(rng.choice(sorted(set(pr[0] for pr in free))))
+                ops.append(['setm', name, idx])
+                live[name] = idx          # (the object keeps the dtype of the value it was made from)
+            else:
+                ops.append(['set', name, idx])
+                live.pop(name, None)
         elif spec.both and r < p_set + p_both:
             ops.append(['both', int(rng.choice(fsel)), int(rng.choice(bsel)), int(rng.choice(wsel))])
         elif r < p_set + p_both + 0.03:
@@ -954,7 +1235,13 @@ def gen_case(rng, spec, el_setters, big):
                 g = int(pool[int(rng.integers(0, min(k_work, len(pool))))]) if rng.random() < 0.7 else int(rng.choice(pool))
                 w = int(wsel[0]) if rng.random() < (0.9 if style in ('near', 'mutate') else 0.7) else int(rng.choice(wsel))
             ops.append(['bwd' if back else 'fwd', g, w, dt, int(pol), seed])
-    return {'spec': spec.name, 'maxN': maxN, 'style': style, 'near': near, 'ops': ops}
+    init = []
+    if spec.ok and el_setters and rng.random() < 0.3:
+        cand = [q for q in el_setters if q not in spec.post]
+        if cand:
+            q = str(rng.choice(cand))
+            init = [[q, int(rng.choice(spec.ok[q]))]]
+    return {'spec': spec.name, 'maxN': maxN, 'style': style, 'near': near, 'init': init, 'ops': ops}
 
 
 def directed():
@@ -2036,7 +2323,7 @@ def check_declared_reads(ctx):
     for spec in specs():
         variants = [{n: 0 for n in spec.values}]
         for n in spec.values:
-            for idx, val in enumerate(spec.values[n]):
+            for idx, val in enumerate(spec.values[n][:spec.nreg[n]]):
                 if idx and callable(val) and n not in spec.post:
                     variants.append(dict(variants[0], **{n: idx}))
         for params in variants:
@@ -2163,7 +2450,7 @@ def compare_with_model(ctx, batch):
             ctx.traces_validated += 1
             m = parse_model(resp)
             diffs = []
-            for f in ('status', 'id', 'key', 'ver', 'num', 'cache', 'slot', 'rebuilt', 'res'):
+            for f in ('status', 'id', 'key', 'ver', 'num', 'cache', 'slot', 'rebuilt', 'res', 'built'):
                 if f in exp and exp[f] != m.get(f):
                     diffs.append('%s: code %s model %s' % (f, exp[f], m.get(f)))
             if 'how' in m:
@@ -2196,7 +2483,11 @@ def run(ctx):
     # setters found by introspection
     setters = {}
     skipped = {}
+    attrs = {}
+    attrs_skipped = []
     for spec in specs():
+        attrs[spec.name] = []
+        spec.ok, spec.mutable = {}, {}
         try:
             el = spec.make({n: 0 for n in spec.values})
         except Exception as e:      # the constructor of the code under test raises: a violation, not a crash
@@ -2209,13 +2500,27 @@ def run(ctx):
         for n in names:
             if n in spec.skip:
                 skipped['%s.%s' % (spec.name, n)] = spec.skip[n]
-            elif n not in spec.values or len(spec.values[n]) < 2:
+            elif n not in spec.values or spec.nreg[n] < 2:
                 raise MachineryError('public setter %s.%s has no alternative value in the registry' % (spec.name, n))
             else:
                 use.append(n)
         setters[spec.name] = use
+        # parameters without a setter: plain public attributes that are constructor arguments (changed by assignment followed
+        # by the documented clear_cache())
+        plain = plain_parameters(el)
+        attrs[spec.name] = [n for n in plain if n in spec.values and spec.nreg[n] >= 2]
+        for n in plain:
+            if n not in attrs[spec.name]:
+                attrs_skipped.append('%s.%s' % (spec.name, n))
+        probe_values(spec, use + attrs[spec.name])
     ctx.extra['setters_exercised'] = setters
     ctx.extra['setters_skipped'] = skipped
+    ctx.extra['plain_parameters_exercised'] = attrs
+    ctx.extra['plain_parameters_without_alternative_value'] = attrs_skipped
+    ctx.extra['values_accepted'] = {
+        '%s.%s' % (sp.name, n): {'registered': sp.nreg[n], 'lifted_accepted': [value_kind(sp.values[n][i]) for i in ix if i >= sp.nreg[n]],
+                                 'mutable_forms': len(sp.mutable[n])}
+        for sp in specs() if sp.ok for n, ix in sp.ok.items()}
 
     cases = directed()
     per = ctx.scale(24, 400)
@@ -2226,17 +2531,24 @@ def run(ctx):
     # every setter at least once, right after use
     for spec in specs():
         for n in setters[spec.name]:
-            for idx in range(1, len(spec.values[n])):
+            for idx in [i for i in spec.ok[n] if i]:
                 cases.append({'spec': spec.name, 'maxN': None, 'style': 'each-setter',
                               'ops': [['fwd', 0, 0, 'complex128', 0, 5], ['bwd', 0, 0, 'complex128', 0, 6], ['set', n, idx],
                                       ['fwd', 0, 0, 'complex128', 0, 5], ['bwd', 0, 0, 'complex128', 0, 6],
                                       ] + ([['set', n, 0], ['fwd', 0, 0, 'complex128', 0, 5]] if n not in spec.post else [])})
+    # the two setter classes (the setter changes the kind of the value; the setter is given the object it already holds, edited
+    # in place), for every public setter and every plain public parameter
+    for spec in specs():
+        extra_cases = setter_cases(ctx, spec, setters[spec.name], 'set') + setter_cases(ctx, spec, attrs[spec.name], 'attr')
+        if spec.name.split('-')[0] == 'VectorVortexCoronagraph' and ctx.tier != 'thorough':
+            extra_cases = extra_cases[:4]
+        cases += extra_cases
     # every parameter value that is a callable (of the grid, of the wavelength, of both) x several wavelengths and grids on
     # one object, in both directions, revisiting earlier combinations
     for spec in specs():
         for n in spec.values:
             for idx, val in enumerate(spec.values[n]):
-                if not callable(val) or (idx and n not in setters[spec.name]):
+                if not callable(val) or (idx and n not in setters[spec.name]) or (idx >= spec.nreg[n] and idx not in spec.ok.get(n, [])):
                     continue
                 f = lambda g, w, sd: ['fwd', g, w, 'complex128', 0, sd]      # noqa: E731
                 b = lambda g, w, sd: ['bwd', g, w, 'complex128', 0, sd]      # noqa: E731
@@ -2253,6 +2565,8 @@ def run(ctx):
         ctx.count('elem:' + case['spec'])
         ctx.count('style:' + case['style'])
         ctx.count('maxN:%s' % case['maxN'])
+        if case.get('init'):
+            ctx.count('histories_constructed_with_another_value')
         ctx.count('instances_created', len(h.insts))
         if any(n[1] == 'weights' for n in case.get('near', [])) or any(op[0] == 'mut' and op[2] == 'weights' for op in case['ops']):
             ctx.count('histories_with_grids_differing_in_weights_only')
